@@ -340,6 +340,10 @@ class Renderer:
             _setstyle(node, '"')
         elif style == 'sq':
             _setstyle(node, "'")
+        elif style == 'literal':
+            _setstyle(node, '|')
+        elif style == 'folded':
+            _setstyle(node, '>')
         elif style == 'json':
             _setstyle(node, '"', only_str=True)
             kw['width'] = 100000
